@@ -91,7 +91,7 @@ class IgnoreChecker:
             File content or empty string if unreadable
         """
         try:
-            return Path(file_path).read_text(encoding="utf-8")
+            return Path(file_path).read_text(encoding="utf-8-sig")
         except (OSError, UnicodeDecodeError):
             return ""
 
